@@ -21,6 +21,7 @@
 import EV.Proofs.AddrCanonical
 import EV.Proofs.AddrDetect
 import EV.Proofs.AddressOps
+import EV.Proofs.BridgeAddrDetect
 namespace EV.Props.C06
 open EV EV.Bech32 EV.Base58 EV.Addr
 
@@ -653,5 +654,70 @@ example : fromScript (Taproot.p2trScript (List.replicate 32 1)) none Gen.paramsL
   refine ⟨by decide, fun _ => rfl, fun _ => rfl, ⟨by decide, by decide⟩, by decide⟩
 
 end ops
+
+/-! ## bridge to C17: corruptions of a DISPLAYED address are rejected
+
+  The round-trip theorems above and the detection theorems of C17 are about the same parser (`fromStr`,
+  `parseWithParams` of `EV.Model.Address`; the same `segwitNew` decoders underneath), so C17's
+  `corrupted_address_rejected` applies verbatim to the strings `Display` produces.  `EV.Proofs.BridgeAddrDetect` makes
+  the shape of those strings explicit (`displayHrp a`, separator, `dataPart a` = the characters of `segSyms a`: version,
+  regrouped payload, checksum), shows that C17's length bounds hold for every standard address, and extends the
+  statement from alphabet replacements to replacements by arbitrary bytes. -/
+section bridgeC17
+open EV.Bech32.Code
+
+/-- what `Display` prints for a standard segwit address: the network's hrp (blech32 one when blinded), `'1'`, and the
+    data characters — all of them lower-case characters of the bech32 alphabet, reading back to the symbols `segSyms a` -/
+theorem display_segwit_shape (a : Address) (h : WF P a) (hs : a.payload.isSegwit = true) :
+    display P a = displayHrp a ++ 49 :: dataPart a ∧
+    (∀ c ∈ dataPart a, (fromChar c).isSome = true ∧ isUpper c = false) ∧ (dataPart a).map sym = segSyms a :=
+  ⟨display_shape_wf P a h hs, dataPart_clean P a h, dataPart_syms P a h⟩
+
+/-- C17's length bounds (same variant: 1023 symbols; switched variant: 100 symbols for bech32/bech32m, 140 for
+    blech32/blech32m; hrp expansion included) hold for every standard address -/
+theorem display_within_checksum_bounds (a : Address) (h : WF P a) (hs : a.payload.isSegwit = true) :
+    (hrpExpand (displayHrp a) ++ segSyms a).length ≤ (segFlavor a).switchBound ∧ (segFlavor a).switchBound ≤ 1023 :=
+  display_symbols_within_bound P a h hs
+
+/-- **`corrupted_display_rejected`.** For a standard segwit address `a` on a built-in network: a string that differs
+    from `display a` in one or two characters of the data part — the replacement characters being alphabet characters
+    of a different symbol value, the witness-version character included — is rejected by `from_str`, by
+    `parse_with_params` of `a`'s network, and by `parse_with_params` of any network unless the whole string happens to be
+    a valid base58check string (C06 `addr_roundtrip` ∘ C17 `corrupted_address_rejected`; no length hypothesis left) -/
+theorem corrupted_display_rejected (a : Address) (h : WF P a) (hs : a.payload.isSegwit = true)
+    (d' : Text) (hd' : ∀ c ∈ d', (fromChar c).isSome = true) (hlen : d'.length = (dataPart a).length)
+    (h1 : 1 ≤ diffCount (segSyms a) (d'.map sym)) (h2 : diffCount (segSyms a) (d'.map sym) ≤ 2) :
+    (∃ k, fromStr P (displayHrp a ++ 49 :: d') = .err k) ∧
+    (∃ k, parseWithParams P (displayHrp a ++ 49 :: d') a.params = .err k) ∧
+    (∀ q ∈ Gen.allParamsB, (∃ k, parseWithParams P (displayHrp a ++ 49 :: d') q = .err k) ∨
+      (decodeCheck P.sha256d (displayHrp a ++ 49 :: d')).isSome = true) :=
+  EV.Addr.corrupted_display_rejected P a h hs d' hd' hlen h1 h2
+
+/-- **`corrupted_display_rejected_any`.** … and so is ANY string `s'` that differs from `display a` in one or two
+    characters of the data part (`diffCount` counts differing character positions), whatever the replacement bytes are —
+    another alphabet character (checksum mismatch), an upper-case letter (mixed case), a non-alphabet or non-ASCII byte
+    (invalid character) — as long as no replacement is the separator `'1'` itself (that moves the separator: the string
+    then has an unknown prefix and falls through to the base58check parser, where only a SHA-256d coincidence decides) -/
+theorem corrupted_display_rejected_any (a : Address) (h : WF P a) (hs : a.payload.isSegwit = true)
+    (d' : Text) (hlen : d'.length = (dataPart a).length) (hsep : ∀ c ∈ d', c ≠ 49)
+    (h1 : 1 ≤ diffCount (dataPart a) d') (h2 : diffCount (dataPart a) d' ≤ 2) :
+    (∃ k, fromStr P (displayHrp a ++ 49 :: d') = .err k) ∧
+    (∃ k, parseWithParams P (displayHrp a ++ 49 :: d') a.params = .err k) :=
+  EV.Addr.corrupted_display_rejected_any P a h hs d' hlen hsep h1 h2
+
+/-- the hypotheses are satisfiable: a standard v0 address on LIQUID, its data part with the first character after the
+    version replaced by another alphabet character (`corrupted_display_rejected`), by an upper-case letter and by a
+    non-alphabet byte (`corrupted_display_rejected_any`) -/
+example : let P0 : Prims := { sha256d := fun _ => [], validPk := fun _ => true }
+    let a : Address := { params := Gen.paramsLiquidB, payload := .wit 0 (List.replicate 20 7), blinder := none }
+    WF P0 a ∧ a.payload.isSegwit = true ∧
+    (∀ x ∈ [112, 80, 98], ((dataPart a).set 1 x).length = (dataPart a).length ∧ (∀ c ∈ (dataPart a).set 1 x, c ≠ 49) ∧
+      diffCount (dataPart a) ((dataPart a).set 1 x) = 1) ∧
+    (∀ c ∈ (dataPart a).set 1 112, (fromChar c).isSome = true) ∧
+    diffCount (segSyms a) (((dataPart a).set 1 112).map sym) = 1 := by
+  refine ⟨⟨by decide, ⟨by decide, by decide, by decide, by decide, by intro b hb; rw [List.mem_replicate] at hb; omega⟩,
+    trivial⟩, rfl, by decide +kernel, by decide +kernel, by decide +kernel⟩
+
+end bridgeC17
 
 end EV.Props.C06
